@@ -59,8 +59,11 @@ PlainView(as) == IF as = <<>> THEN <<>> ELSE <<PlainA(as[1].q, as[1].v)>> \o Pla
 DAttrsView(s, n) == PlainView(s.nd[n].a)
 
 \* ---- nodes ----
+\* minidom's DocumentType(qualifiedName) keeps only the part after the first colon as .name  (known finding
+\* "dom-doctype-name-colon": <!DOCTYPE a:b> becomes a doctype named "b"; the etree builder keeps "a:b")
+DoctypeName(n) == IF "dom-doctype-name-colon" \in KnownDefects /\ n # None THEN AfterFirstColon(n) ELSE n
 DNew(s, c) == [s EXCEPT !.nd = Append(@, CASE c.k = "comment" -> DNode("comment", "", <<>>, c.d, None, None)
-                                           [] c.k = "doctype" -> DNode("doctype", "", c.n, <<>>, c.p, c.q)
+                                           [] c.k = "doctype" -> DNode("doctype", "", DoctypeName(c.n), <<>>, c.p, c.q)
                                            [] OTHER           -> DNode(c.k, c.ns, c.n, <<>>, None, None))]
 RECURSIVE ItemIndex(_, _, _)
 ItemIndex(ks, id, i) == IF i > Len(ks) THEN 0 ELSE IF ks[i].i = id THEN i ELSE ItemIndex(ks, id, i + 1)
